@@ -64,6 +64,9 @@ def run(chk):
     chk.explanation = ("tx.miter evaluated by the checker's evaluator over the reference Circuit model on pairs of model circuits; the resulting model netlist is simulated exhaustively "
                        "against the definition 'sat = some compared endpoint differs', with values taken from the original circuits.")
     chk.assume("reference Circuit model implements add/add_subcircuit/startpoints/endpoints as documented (add_subcircuit itself is checked under C06)")
+    from ..structural import miter_template_rule
+
+    miter_template_rule(chk, repo, "C04.S.template")
     P = Package(repo)
     fi = repo.func(FILE, "miter")
     bases = list(two_level_circuits(limit=40 if chk.tier == "quick" else None)) + list(deep_circuits())
